@@ -1343,6 +1343,117 @@ enum Shape {
     Descending,
 }
 
+/// the sorted set lives inside a REAL `CommandExecutor`: ZADD with every flag combination the parser
+/// lets through and ZREM go through `execute_zadd` / `execute_zrem` (the loops `SkipList.zaddLoop` /
+/// `zremLoop` transcribe); after every command the set is read back out of the executor and the
+/// usual structure / reference checks run on it
+fn zx_sequence(d: &mut Dx, rng: &mut Rng) {
+    use redis_sim::redis::{Command, CommandExecutor, RespValue, Value as RV};
+    use redis_sim::simulator::VirtualTime;
+    let mut ex = CommandExecutor::new();
+    ex.set_time(VirtualTime::from_millis(1_000));
+    let mut alphabet = small_alphabet();
+    rng.shuffle(&mut alphabet);
+    alphabet.truncate(rng.range(2, 8) as usize);
+    let mut r = ZRun::new(d);
+    let key = "z".to_string();
+    const FLAGS: [(bool, bool, bool, bool); 9] = [
+        (false, false, false, false),
+        (false, false, false, false),
+        (true, false, false, false),
+        (false, true, false, false),
+        (false, false, true, false),
+        (false, false, false, true),
+        (false, true, true, false),
+        (false, true, false, true),
+        (false, false, false, false),
+    ];
+    for _ in 0..rng.range(4, 50) {
+        if r.dead {
+            break;
+        }
+        let (op, reply) = if rng.chance(1, 5) {
+            let ms: Vec<Vec<u8>> = (0..rng.range(1, 3)).map(|_| rng.pick(&alphabet).clone()).collect();
+            let cmd = Command::ZRem(key.clone(), ms.iter().map(|m| SDS::new(m.clone())).collect());
+            let reply = guard(|| ex.execute(&cmd));
+            let mut op = format!("DS ZREMF {}", ms.len());
+            for m in &ms {
+                op.push(' ');
+                op.push_str(&hex(m));
+                if let Some(i) = r.ref_find(m) {
+                    r.refv.remove(i);
+                }
+            }
+            r.d.out.count("data:z:via-executor:ZREM");
+            (op, reply)
+        } else {
+            let (nx, xx, gt, lt) = *rng.pick(&FLAGS);
+            let ch = rng.chance(1, 3);
+            let pairs: Vec<(f64, Vec<u8>)> = (0..rng.range(1, 3)).map(|_| (gen_score(rng), rng.pick(&alphabet).clone())).collect();
+            let cmd = Command::ZAdd { key: key.clone(), pairs: pairs.iter().map(|(s, m)| (*s, SDS::new(m.clone()))).collect(), nx, xx, gt, lt, ch };
+            let reply = guard(|| ex.execute(&cmd));
+            let mut op = format!("DS ZADDF {}{}{}{}{} {}", nx as u8, xx as u8, gt as u8, lt as u8, ch as u8, pairs.len());
+            for (sc, m) in &pairs {
+                op.push_str(&format!(" {} {}", hex(m), sc_tok(*sc)));
+                // the reference: ZADD's flag semantics on the naive sorted vector
+                let cur = r.ref_find(m).map(|i| r.refv[i].0);
+                let skip = match cur {
+                    Some(c) => nx || (gt && !(*sc > c)) || (lt && !(*sc < c)),
+                    None => xx,
+                };
+                if !skip {
+                    if let Some(i) = r.ref_find(m) {
+                        r.refv.remove(i);
+                    }
+                    r.ref_insert(m, *sc);
+                }
+            }
+            r.d.out.count(&format!("data:z:via-executor:ZADD:{}{}{}{}{}", if nx { "NX" } else { "" }, if xx { "XX" } else { "" }, if gt { "GT" } else { "" }, if lt { "LT" } else { "" }, if ch { "CH" } else { "" }));
+            (op, reply)
+        };
+        let ans = match reply {
+            Some(RespValue::Integer(i)) => format!(":{}", i),
+            Some(other) => format!("unexpected:{:?}", other),
+            None => "crash".to_string(),
+        };
+        if ans == "crash" {
+            r.emit(op.clone(), ans, true);
+            r.panic("execute_zadd/zrem", &op);
+            break;
+        }
+        r.emit(op.clone(), ans, true);
+        // read the set back out of the executor; an emptied set is deleted, the next ZADD makes a fresh one
+        match ex.get_data().get(&key) {
+            Some(RV::SortedSet(z)) => {
+                r.z = z.clone();
+                r.after_mut(&op, None);
+            }
+            Some(_) => {
+                r.viol("via-executor:type-changed", "the key no longer holds a sorted set".into(), &op);
+                break;
+            }
+            None => {
+                if !r.refv.is_empty() {
+                    r.viol("zset-vs-reference:deleted", format!("the executor deleted the key, the reference still has {} members", r.refv.len()), &op);
+                }
+                r.z = RedisSortedSet::new();
+                r.emit("DS ZNEW".into(), "ok".into(), true);
+            }
+        }
+        if rng.chance(1, 4) {
+            z_read(&mut r, rng, &alphabet);
+        }
+    }
+    if !r.dead {
+        r.ziter();
+        r.zlen();
+        for m in alphabet.clone() {
+            r.zrank(&m);
+        }
+    }
+    r.finish("via-executor");
+}
+
 fn z_sequence(d: &mut Dx, rng: &mut Rng, shape: Shape) {
     let all = small_alphabet();
     let mut r = ZRun::new(d);
@@ -2285,6 +2396,9 @@ pub fn run(out: &mut Out, rng: &mut Rng, n: u64) {
     }
     for _ in 0..n_long {
         z_sequence(&mut d, rng, Shape::Long);
+    }
+    for _ in 0..(nseq / 5).max(20) {
+        zx_sequence(&mut d, rng);
     }
     for _ in 0..nseq * 3 / 10 {
         list_sequence(&mut d, rng);
